@@ -159,6 +159,44 @@ CHECKS = {
         ref="3 C07"),
 }
 
+# clauses added after the two seeding rounds (DESIGN.md section 7); appended to the text above
+ADDED = {
+    "C01": "Also: explicit-format hash never served from the cache, header folding prefix agreement, numeric fields tested with "
+           "`is None` (0 is a value), header emission order = git's.",
+    "C02": "Also: unused zlib tail trimmed only under a non-emptiness test (x[:-0]), exact stream reads use read_all with the "
+           "pre-drain buffer length, crc32 updates continue the running value.",
+    "C03": "Also: no early exit in the copy-op byte loops, size-varint encoder idiom with the exact loop bound, 'no base' "
+           "decided by identity (an empty base is a base).",
+    "C04": "Also: inflate bound is what remains, packed-refs cache key recorded only after a complete parse, every read "
+           "callable of the input-size cap counts, temporary pack files removed on every failing exit.",
+    "C05": "Also: the have side - gitlink entries are never assumed present on the peer, a commit is announced as have only "
+           "after its parents were read from the local store.",
+    "C06": "Also: files backend answers True only when the effect happened (no swallowed unlink/write failure), the "
+           "expected-old argument of a conditional CAS cannot be None, the atomic decision flag accumulates.",
+    "C07": "Also: a failed acquisition unlinks nothing, the ownership flag agrees with the lock state on every exit of "
+           "close()/abort(), no early exit out of `with GitFile(.., 'wb')` before a write (it would commit an empty file).",
+    "C08": "Also: data written through the lock handle is read inside the lock region, add_if_new checked where it is the "
+           "twin of a checked set_if_equals, the lock protocol clauses of C07 (shared).",
+    "C09": "Also: directory rescan before the pack rename, flush/fsync/close before rename in the lock class (shared with C07).",
+    "C10": "Also: repack deletes only what it enumerated before writing the new pack (same snapshot), add_object freshens or "
+           "writes, refs are read loose first and packed second, lookups retry after a pack vanished.",
+    "C11": "Also: bit-field algebra of the flags word, v4 prefix varint = git's offset varint, (sec, nsec) from one integer.",
+    "C13": "Also: the redundancy filter's walk is complete, walk.py has one source of ancestry (the walker's get_parents), "
+           "ParentsProvider consults grafts/shallows first (shared with C14).",
+    "C14": "Also: XOR-compressed bitmaps resolved against the resolved base, incomplete bitmap lookups end in the fallback "
+           "(never a partial answer), both reachability providers mean the same closure.",
+    "C15": "Also: validation drift of the twins against a confirmed table (which local names each rejection depends on), the "
+           "delta encoder tables of C03 (shared).",
+    "C16": "Also: resolved name used after symref resolution, empty-parent cleanup on every successful delete, unconditional "
+           "operations always take effect, symref depth = git's.",
+    "C17": "Also: transition helpers decide on the lstat result, verify_leading_dirs skips only the leading verified run, "
+           "containment decided per path component (no commonprefix).",
+    "C19": "Also: capability lists split on exactly the writer's separator, only an empty length prefix is a hang-up, exact "
+           "stream reads (shared with C02), decoder idioms for side-band and parser.",
+    "C20": "Also: only escapes git knows, normalised keys compared with normalised keys, subsection presence by identity, the "
+           "two representations of the multi-value store updated together.",
+}
+
 NOT_APPLICABLE = {
     "C12": "Inverse-ness of build/flatten and soundness/completeness of a tree diff are relations over runtime tree "
            "values; the only clause visible in the code's shape (entries always serialised through the one canonical "
@@ -184,7 +222,7 @@ def main():
             "evidence_file": f"/verif/evidence/{pid}.json",
             "replay_cmd_template": f"./check {pid} --replay {{path}}",
             "engine": "sa",
-            "level_claimed": {"category": "other", "text": c["text"], "design_ref": c["ref"]},
+            "level_claimed": {"category": "other", "text": c["text"] + (" " + ADDED[pid] if pid in ADDED else ""), "design_ref": c["ref"]},
             "level_note": c.get("note", NOTE),
             "technique": c["technique"],
         })
@@ -212,7 +250,8 @@ def main():
             "serves_properties": [c["property_id"] for c in checks],
             "kind_free_text": "repository-specific static analysis over Python ast: statement CFG with exception edges, "
                               "typestate products, must-pass-through / never-before ordering, reaching definitions, "
-                              "taint, table extraction, partial evaluation, sibling cross-checks; own Rust lexer for crates/",
+                              "taint, table extraction, partial evaluation, sibling cross-checks; own Rust lexer for crates/; "
+                              "canonical AST form and alpha-conversion of locals at load time (spelling-independent rules)",
         }],
         "checks": checks,
         "not_applicable": na,
